@@ -766,6 +766,22 @@ class H2Connection:
                     (max_open_streams, self.open_outbound_streams)
                 )
 
+        # We may need to send priority information. Check it now: once the
+        # headers have been HPACK-encoded it is too late to refuse the call.
+        priority_present = (
+            (priority_weight is not None) or
+            (priority_depends_on is not None) or
+            (priority_exclusive is not None)
+        )
+
+        if priority_present:
+            if not self.config.client_side:
+                raise RFC1122Error("Servers SHOULD NOT prioritize streams.")
+
+            _validate_priority(
+                stream_id, priority_weight, priority_depends_on
+            )
+
         self.state_machine.process_input(ConnectionInputs.SEND_HEADERS)
         if self.config.client_side:
             stream = self._get_or_create_stream(
@@ -779,17 +795,7 @@ class H2Connection:
             headers, self.encoder, end_stream
         )
 
-        # We may need to send priority information.
-        priority_present = (
-            (priority_weight is not None) or
-            (priority_depends_on is not None) or
-            (priority_exclusive is not None)
-        )
-
         if priority_present:
-            if not self.config.client_side:
-                raise RFC1122Error("Servers SHOULD NOT prioritize streams.")
-
             headers_frame = frames[0]
             headers_frame.flags.add('PRIORITY')
             frames[0] = _add_frame_priority(
@@ -2050,22 +2056,12 @@ def _add_frame_priority(frame, weight=None, depends_on=None, exclusive=None):
 
     This method validates the input values.
     """
-    # A stream may not depend on itself.
-    if depends_on == frame.stream_id:
-        raise ProtocolError(
-            "Stream %d may not depend on itself" % frame.stream_id
-        )
+    _validate_priority(frame.stream_id, weight, depends_on)
 
-    # Weight must be between 1 and 256.
     if weight is not None:
-        if weight > 256 or weight < 1:
-            raise ProtocolError(
-                "Weight must be between 1 and 256, not %d" % weight
-            )
-        else:
-            # Weight is an integer between 1 and 256, but the byte only allows
-            # 0 to 255: subtract one.
-            weight -= 1
+        # Weight is an integer between 1 and 256, but the byte only allows
+        # 0 to 255: subtract one.
+        weight -= 1
 
     # Set defaults for anything not provided.
     weight = weight if weight is not None else 15
@@ -2077,6 +2073,24 @@ def _add_frame_priority(frame, weight=None, depends_on=None, exclusive=None):
     frame.exclusive = exclusive
 
     return frame
+
+
+def _validate_priority(stream_id, weight, depends_on):
+    """
+    Checks that priority information is acceptable for the given stream.
+    """
+    # A stream may not depend on itself.
+    if depends_on == stream_id:
+        raise ProtocolError(
+            "Stream %d may not depend on itself" % stream_id
+        )
+
+    # Weight must be between 1 and 256.
+    if weight is not None:
+        if weight > 256 or weight < 1:
+            raise ProtocolError(
+                "Weight must be between 1 and 256, not %d" % weight
+            )
 
 
 def _decode_headers(decoder, encoded_header_block):
